@@ -3,6 +3,7 @@ registered services; the harness plays every querier on the link and records eve
 instance sends, projected with the independent parser (vf/wire.py) onto interned record ids."""
 from __future__ import annotations
 
+import asyncio
 import random
 import socket
 from typing import Any, Dict, List, Optional, Tuple
@@ -116,6 +117,7 @@ class Recorder:
         self.net.on_send_hook = self._on_send
         self.pending_tasks: List[Any] = []
         self.closed = False
+        self.bg: List[Any] = []
 
     def ev(self, _ev: str, **kw: Any) -> dict:
         if getattr(self, 'stopped', False):
@@ -175,12 +177,26 @@ class Recorder:
         if op == 'reg':
             sp = st['svc']
             info = self.make_info(sp)
-            self.ev('api', op='reg', svc=expected_records(self.it, sp), coop=st.get('coop', True))
+            coop = st.get('coop', True)
+            cands = []
+            if not coop:
+                # candidate names the library may end up with: name, name-2, name-3, ... (first free suffix)
+                inst, _, rest = sp['name'].partition('.')
+                for n in range(1, 7):
+                    c = dict(sp)
+                    c['name'] = sp['name'] if n == 1 else '%s-%d.%s' % (inst, n, sp['type'])
+                    cands.append(expected_records(self.it, c))
+            if st.get('again') and not cands:
+                cands = [expected_records(self.it, sp)]
+            self.ev('api', op='reg', svc=expected_records(self.it, sp), coop=coop, rename=bool(st.get('rename', False)),
+                    cands=cands, exact=st.get('exact', []), again=bool(st.get('again', False)))
             try:
-                task = await aio.async_register_service(info, cooperating_responders=st.get('coop', True),
+                task = await aio.async_register_service(info, cooperating_responders=coop,
                                                         allow_name_change=st.get('rename', False))
                 self.infos[sp['sid']] = info
-                self.specs[sp['sid']] = sp
+                sp2 = dict(sp)
+                sp2['name'] = info.name
+                self.specs[sp['sid']] = sp2
                 self.pending_tasks.append(task)
                 self.ev('api_ret', op='reg', sid=sp['sid'], ok=True, final=self.it.nb(info.name))
             except Exception as ex:  # noqa: BLE001
@@ -260,12 +276,28 @@ class Recorder:
                 src = st.get('src', '10.0.0.9')
                 for _ in range(st.get('copies', 1)):
                     self.host.inject(data, src=src, port=st.get('port', 5353), sock=st.get('sock', 0), tag=st.get('tag'))
+            elif op == 'conflict':
+                if not self.closed:
+                    sp = st['svc']
+                    inst, _, rest = sp['name'].partition('.')
+                    nm = sp['name'] if st['k'] == 0 else '%s-%d.%s' % (inst, st['k'] + 1, sp['type'])
+                    if not st.get('exact', True):
+                        nm = inst.swapcase() + nm[len(inst):]
+                    data = wire.build(flags=0x8400, answers=[(sp['type'], wire.T_PTR, 1, st.get('ttl', 4500), nm)])
+                    self.host.inject(data, src=st.get('src', '10.0.0.66'), tag='conflict')
+            elif op == 'reg_bg':
+                st2 = dict(st)
+                st2['op'] = 'reg'
+                self.bg.append(asyncio.ensure_future(self.api(st2)))
             elif op == 'raw':
                 if not self.closed:
                     self.host.inject(bytes.fromhex(st['data']), src=st.get('src', '10.0.0.9'), port=st.get('port', 5353),
                                      sock=st.get('sock', 0))
             else:
                 await self.api(st)
+        for fut in self.bg:
+            if not fut.done():
+                await fut
         self.ev('end')
         self.stopped = True
         if not self.closed:
@@ -287,6 +319,9 @@ class Recorder:
             evn = dict(evn)
             evn.pop('seq', None)
             merged.append(evn)
+        if self.net.aborted:
+            merged = merged[:400] + [{'ev': 'exc', 't': merged[min(len(merged), 400) - 1]['t'] if merged else 0, 'what': 'Runaway',
+                                      'msg': self.net.aborted[:200]}]
         return {'id': self.sc['id'], 'events': merged, 'recs': self.it.table, 'names': len(self.it.names),
                 'enum_nb': self.it.nb(ENUM)}
 
@@ -510,3 +545,69 @@ def gen_resp(rng: random.Random, sid: str, focus: str, thorough: bool = False) -
     steps.append({'op': 'at', 't': t})
     return {'id': sid, 'seed': rng.randint(0, 10 ** 9), 'steps': steps, 'layout': rng.choice(['single', 'single', 'split']),
             'rand': rng.choice([None, None, None, 'lo', 'hi'])}
+
+
+def gen_c09(rng: random.Random, sid: str, thorough: bool = False) -> dict:
+    """Registration with probing: conflicting pointer records arrive at grid offsets around the three probe instants."""
+    svcs = gen_services(rng)
+    sp = svcs[0]
+    others = svcs[1:2]
+    steps: List[dict] = []
+    t = 0
+    for o in others:
+        steps += [{'op': 'at', 't': t}, {'op': 'reg', 'svc': o, 'coop': True}]
+        t += 600
+    rename = rng.random() < 0.6
+    t0 = t + rng.choice([1000, 2500, 9800, 12000])
+    expired_case = rng.random() < 0.12
+    if expired_case:
+        # a conflicting pointer that has expired (PTR floor: 1125 s) but is not purged yet when registration starts
+        t_inj = t + 5003
+        t0 = t_inj + 1125000 + rng.choice([0, 1, 4000, 9000])
+    grid = [-3000, -1, 0, 1, 100, 174, 175, 176, 300, 349, 350, 351, 400, 600]
+    evs: List[Tuple[int, dict]] = []
+    exact: List[int] = []
+    r = t0
+    nconf = rng.choice([0, 1, 1, 1, 2, 3])
+    for k in range(nconf):
+        x = rng.choice(grid)
+        is_exact = rng.random() < 0.8
+        ttl = rng.choice([4500, 120, 4500, 1])
+        when = r + x
+        if ttl == 1 and x < 0:
+            when = r - rng.choice([1001, 2500, 9000])       # expired (perhaps unpurged) by the time it matters
+        evs.append((max(0, when), {'op': 'conflict', 'svc': sp, 'k': k, 'exact': is_exact, 'ttl': ttl}))
+        if is_exact:
+            exact.append(k)
+        detected = is_exact and x <= 349 and not (ttl == 1 and x < 0) and ttl != 1
+        if not (detected and rename):
+            break
+        r = max(r, when) if x >= 0 else r
+    if expired_case:
+        evs = [(t_inj, {'op': 'conflict', 'svc': sp, 'k': 0, 'exact': True, 'ttl': rng.choice([1, 120, 1125])})]
+        exact = [0]
+    evs.append((t0, {'op': 'reg_bg', 'svc': sp, 'coop': False, 'rename': rename, 'exact': exact}))
+    evs.sort(key=lambda p: (p[0], 0 if p[1]['op'] == 'conflict' and p[0] < t0 else 1))
+    for (tt, st) in evs:
+        steps += [{'op': 'at', 't': tt}, st]
+    end = max(tt for tt, _ in evs) + 1500
+    steps.append({'op': 'at', 't': end})
+    # afterwards: ask for the instance under every candidate name and for the type
+    inst, _, rest = sp['name'].partition('.')
+    for k in range(0, 3):
+        nm = sp['name'] if k == 0 else '%s-%d.%s' % (inst, k + 1, sp['type'])
+        steps.append({'op': 'query', 'qs': [{'name': nm, 'type': wire.T_SRV, 'sp': 0, 'qu': False}], 'qid': 7, 'port': 40000,
+                      'src': '10.0.0.9'})
+    steps.append({'op': 'query', 'qs': [{'name': sp['type'], 'type': wire.T_PTR, 'sp': 0, 'qu': False}], 'qid': 8, 'port': 40001,
+                  'src': '10.0.0.9'})
+    end += 1500
+    steps.append({'op': 'at', 't': end})
+    if rng.random() < 0.35:
+        # the same name again on the same instance
+        sp2 = dict(sp)
+        sp2['sid'] = sp['sid'] + 4
+        steps.append({'op': 'reg_bg', 'svc': sp2, 'coop': rng.random() < 0.5, 'rename': rng.random() < 0.5, 'exact': [], 'again': True})
+        end += 2500
+        steps.append({'op': 'at', 't': end})
+    return {'id': sid, 'seed': rng.randint(0, 10 ** 9), 'steps': steps, 'layout': rng.choice(['single', 'split']),
+            'rand': rng.choice([None, 'lo', 'hi'])}
